@@ -5,7 +5,7 @@ EXTENDS Integers, Sequences, FiniteSets, TLC, Json, Pdu
 (* such a pushed configuration to the caller (callback / PUSH_CONFIG_RECEIVED handle) -- content like any other                              *)
 Kinds == {"aggr", "ext", "aggrconf", "extconf", "aggrpush"}
 (* blocking = blocking TCP client, http = blocking HTTP client (scripted libcurl), async / ha = asynchronous TCP service, high-availability service *)
-Transports(k) == IF k = "aggr" THEN {"blocking", "http", "async", "ha"} ELSE IF k = "aggrpush" THEN {"async", "ha"} ELSE {"blocking", "http"}
+Transports(k) == IF k \in {"aggr", "ext"} THEN {"blocking", "http", "async", "ha"} ELSE IF k = "aggrpush" THEN {"async", "ha"} ELSE {"blocking", "http"}
 Cases == {[kind |-> k, transport |-> t, alg |-> a, dev |-> d] : k \in Kinds, t \in {"blocking", "http", "async", "ha"}, a \in {1, 5}, d \in Deviations \ {[d |-> "splice", r |-> "-"]}}
 (* the (deprecated, still selectable) PDU version 1 as the CONFIGURED version of both services, on the blocking client *)
 V1Cases == {[kind |-> k, transport |-> "blocking", alg |-> 1, dev |-> d, ver |-> 1] : k \in {"aggr", "ext"},
